@@ -64,6 +64,15 @@ func checkC09(e *Env) {
 				emit(&Item{Op: plan.Op{Fn: "enc", E: hx(r.Bytes(l)), L: lg}, Exp: c09exp{fn: "enc", length: l, lang: lg}})
 			}
 		}
+		// accepted sizes whose sentences are as long and as short as the lists allow (every
+		// language: decomposed Korean words reach 33 bytes)
+		for lg := 0; lg < ref.NLang; lg++ {
+			for _, size := range ref.EntSizes {
+				for _, ent := range e.extremeEntropies(lg, size, "C09") {
+					emit(&Item{Op: plan.Op{Fn: "enc", E: hx(ent), L: int64(lg)}, Exp: c09exp{fn: "enc", length: size, lang: int64(lg)}})
+				}
+			}
+		}
 		// slices whose capacity differs from their length (a check on cap() would be wrong)
 		for l := 0; l <= 40; l++ {
 			for _, extra := range []int{1, 2, 3, 4, 8, 12, 16} {
